@@ -2,10 +2,11 @@
 
 The family is a matrix rather than a random walk, so the pipeline differs from V.run_family in S1/S2:
   S1+S2  ONE exhaustive TLC run of AccessMC checks the property predicates on every cell of
-         Methods x signer-set descriptors x committee sizes {1,3,4,7} and prints the cells with the expected kind of
+         Methods x signer-set descriptors x committee sizes ({1,3,4,7} quick, 1..7 thorough) and prints the cells with the expected kind of
          outcome (`SCEN` lines) - the printed table IS the test matrix
   S3     harness/access executes the cells of one committee size per process on one chain with all eleven contracts
-         (quick: n = 3 completely + a seeded sample of the methods on n = 1; thorough: n in {1,3,4,7} completely)
+         (quick: n = 3 completely + seeded samples of the methods on n = 1 (every 2nd) and n = 7 (every 4th);
+         thorough: n = 1..7 completely)
   S4     spec/AccessTrace.tla judges every recorded cell (C03_Inert / C03_Succeeds / C03_SafeInert / C03_Verify) and
          compares it with the Spec action (drift)
 """
@@ -33,8 +34,8 @@ RULE = ("one evaluation = one cell (method, signer set, committee size) executed
         "the TLA+ monitor; distinct_nontrivial counts distinct (contract, method, arity, variant, normalised signer set, n, outcome) tuples among "
         "mutating-method cells and verify cells")
 TIERS = {
-    "quick": dict(cfg="Access_quick.cfg", runs=[(3, 0), (1, 4)], mc_timeout=600, drive_timeout=1500),
-    "thorough": dict(cfg="Access_thorough.cfg", runs=[(1, 0), (3, 0), (4, 0), (7, 0)], mc_timeout=900, drive_timeout=3000),
+    "quick": dict(cfg="Access_quick.cfg", runs=[(3, 0), (1, 2), (7, 4)], mc_timeout=600, drive_timeout=1500),
+    "thorough": dict(cfg="Access_thorough.cfg", runs=[(n, 0) for n in (1, 2, 3, 4, 5, 6, 7)], mc_timeout=900, drive_timeout=3000),
 }
 
 
@@ -49,6 +50,22 @@ def doc_facts():
     except OSError:
         pass
     return facts
+
+
+def dev_switches(facts):
+    """Deviation switches of Access.tla that describe the code of the working tree (they only steer the DRIFT report:
+    the monitor compares with the Spec *as the code is*, the properties never look at them)."""
+    dev = []
+    if "balance.transferX:owner-or-alphabet" in facts:
+        dev.append("TransferXOwnerDenied")
+    try:
+        src = open(os.path.join(V.REPO, "contracts", "neofs", "contract.go")).read()
+        m = re.search(r"func SetConfig\(.*?\n}\n", src, re.S)
+        if m and re.search(r"InnerRingInvoker\(alphabet\)\s*if len\(key\) == 0", m.group(0)):
+            dev.append("StrangerVotes")
+    except OSError:
+        pass
+    return dev
 
 
 def with_docfacts(cfg_name, facts):
@@ -99,13 +116,14 @@ def run(pid, tier, seed, replay=None):
     envs = []
     for i, (n, sample) in enumerate(runs):
         envs.append(dict(VERIF_OUT=os.path.join(V.scratch(), "trace%d.ndjson" % i), VERIF_SCEN=scen_path, VERIF_SEED=seed,
-                         VERIF_TIER=tier, VERIF_ACCESS_N=n, VERIF_ACCESS_SAMPLE=sample, VERIF_SHARD=i, VERIF_NSHARD=len(runs)))
+                         VERIF_TIER=tier, VERIF_ACCESS_N=n, VERIF_ACCESS_SAMPLE=sample, VERIF_SHARD=i, VERIF_NSHARD=len(runs), VERIF_NOTRAPS="1" if replay else ""))
     stats, dt = V.go_drive(binary, envs, timeout=cfg["drive_timeout"])
     acts = collections.Counter()
     for s in stats:
         acts.update(s.get("acts", {}))
     V.log("S3: %d lines recorded on the real code (%.0fs)" % (sum(s["lines"] for s in stats), dt))
-    consts = {"DocFacts": "{%s}" % ", ".join(json.dumps(f) for f in facts)}
+    dev = dev_switches(facts)
+    consts = {"DocFacts": "{%s}" % ", ".join(json.dumps(f) for f in facts), "Dev": "{%s}" % ", ".join(json.dumps(f) for f in dev)}
 
     def mon(i):
         p = os.path.join(V.scratch(), "trace%d.ndjson" % i)
@@ -162,7 +180,7 @@ def run(pid, tier, seed, replay=None):
                known_findings_seen=sorted(known_seen), matrix_cells=len(cells), cells_by_kind_and_result=dict(kinds),
                committee_sizes=sorted(set(r["n"] for r in judged)), uncovered_methods=uncovered,
                methods_in_manifests=len(set((r["c"], r["m"], r["a"]) for r in trace_all if r["act"] in ("declared", "uncovered"))),
-               methods_exercised=len(set((r["c"], r["m"], r["a"]) for r in judged)), doc_facts=facts,
+               methods_exercised=len(set((r["c"], r["m"], r["a"]) for r in judged)), doc_facts=facts, deviation_switches_in_monitor=dev,
                monitor_flags_total=len([f for f in flags_all if f["prop"] == pid]))
     if replay is None:
         V.write_evidence(pid, tier, seed, "model_checking", cov, time.time() - t0, len(violations), ASSUME)
